@@ -155,7 +155,10 @@ pub fn run_case(
     let out = util::catch(|| etree::run(&config, false, &LocalExceptions::empty()))
         .map_err(|e| format!("engine panicked: {e}"))??;
     let _ = std::fs::remove_dir_all(&case.dir);
-    Ok(CaseResult { image, served: out.data })
+    // the serving iterator, not only the per-type ones
+    let served = out.served.clone().map_err(|e| format!("the serving iterator yields a duplicate: {e}"))?;
+    out.served_matches()?;
+    Ok(CaseResult { image, served })
 }
 
 fn payload_set(ds: &DataSet) -> BTreeSet<Payload> {
@@ -360,6 +363,157 @@ pub fn run_two(
     Ok(out.data)
 }
 
+/// Objects that only the second version of the base tree carries: (CA, object).
+pub fn v2_only_objects() -> Vec<(&'static str, crate::rpkigen::ObjSpec)> {
+    use crate::rpkigen::ObjSpec;
+    vec![
+        ("ta0", ObjSpec::roa("x2", 64510, "10.250.0.0", 16, 16)),
+        ("ta0", ObjSpec::aspa("xa2", 64510, &[64496])),
+        ("ta0", ObjSpec::router("xk2", 64510, 2)),
+        ("ca1", ObjSpec::roa("x2", 64504, "10.1.250.0", 24, 24)),
+        ("ca1", ObjSpec::aspa("xa2", 64504, &[64500])),
+        ("ca1", ObjSpec::router("xk2", 64504, 1)),
+        ("gc2", ObjSpec::roa("x2", 64505, "10.1.251.0", 24, 24)),
+        ("tb0", ObjSpec::roa("x2", 65009, "192.0.2.128", 25, 25)),
+        ("tb0", ObjSpec::aspa("xa2", 65009, &[65000])),
+        ("tb0", ObjSpec::router("xk2", 65009, 2)),
+    ]
+}
+
+/// Like `run_two`, but the second version carries additional objects in
+/// every CA, which are processed first (order hook). Returns what run 2
+/// serves and the second image.
+pub fn run_two_with_extras(
+    gen: &Gen, dir: std::path::PathBuf, place: &Place, cfg: &Cfg
+) -> Result<(DataSet, Image), String> {
+    let now = rpki::repository::x509::Time::now();
+    let v1 = Builder::at(gen, cfg.stale, now).build(&rpkigen::base_tree());
+    let mut spec = rpkigen::base_tree();
+    for tal in &mut spec.tals {
+        tal.ca.visit_mut(&mut |ca: &mut CaSpec| {
+            ca.mft_number = 2; ca.mft_this_update += 600;
+            for (c, o) in v2_only_objects() { if c == ca.name { ca.objs.push(o); } }
+        });
+    }
+    apply(&mut spec, place);
+    let v2 = Builder::at(gen, cfg.stale, now).build(&spec);
+    let case = Case::new(dir);
+    case.write_tals(&v1);
+    let mut config = case.config();
+    cfg.apply(&mut config);
+    case.publish(&v1);
+    util::catch(|| etree::run(&config, false, &LocalExceptions::empty()))
+        .map_err(|e| format!("engine panicked in run 1: {e}"))??;
+    case.publish(&v2);
+    let out = util::catch(|| etree::run(&config, false, &LocalExceptions::empty()))
+        .map_err(|e| format!("engine panicked in run 2: {e}"))??;
+    let _ = std::fs::remove_dir_all(&case.dir);
+    let served = out.served.clone().map_err(|e| format!("the serving iterator yields a duplicate: {e}"))?;
+    Ok((served, v2))
+}
+
+/// The additional C01 cases; returns (evaluations, nontrivial, violations, outcomes).
+fn explore_c01_extra(ctx: &Ctx) -> (u64, u64, Vec<(String, String, Value)>, std::collections::BTreeMap<String, u64>) {
+    let gen = Gen::load();
+    let mut viol = Vec::new();
+    let mut outcomes = std::collections::BTreeMap::new();
+    let threads = std::env::var("ETREE_THREADS").ok().and_then(|s| s.parse().ok()).unwrap_or(8);
+    let (mut evaluations, mut nontrivial) = (0u64, 0u64);
+    // (a) a fetched point that is abandoned contributes nothing, whatever
+    // of it was processed before the abandonment: its new objects first
+    let h = crate::hooks::hooks();
+    let spec = rpkigen::base_tree();
+    let mut mft_uris = Vec::new();
+    {
+        let img = Builder::new(&gen, Stale::Reject).build(&spec);
+        let mut orders = h.orders.lock().unwrap();
+        for ca in &img.cas {
+            let first: Vec<String> = v2_only_objects().into_iter().filter(|(c, _)| *c == ca.name).map(|(_, o)| o.file_name()).collect();
+            orders.insert(ca.mft_uri.clone(), first);
+            mft_uris.push(ca.mft_uri.clone());
+        }
+    }
+    let places = abandon_places(&spec);
+    let cfg = Cfg::default();
+    let base = payload_set(&run_case(&gen, ctx.scratch.join("c01x-base"), &[], &cfg).expect("fault-free baseline run failed").served);
+    let res = util::par_map(places.len() as u64, threads, |i| {
+        (i as usize, run_two_with_extras(&gen, ctx.scratch.join(format!("c01x-{i}")), &places[i as usize], &cfg))
+    });
+    for (i, r) in res {
+        let place = &places[i];
+        evaluations += 1;
+        nontrivial += 1;
+        let replay = json!({"kind": "abandoned-new-objects", "fault": place.label(), "cfg": cfg.label()});
+        let ca = match place { Place::Obj(c, _, _) | Place::Point(c, _) | Place::Cert(c, _) => c.clone(), Place::TalKey(_) => String::new() };
+        match r {
+            Err(e) => viol.push(("tree:run-failed:abandoned-new-objects".into(), format!("second run with {}: {e}", place.label()), replay)),
+            Ok((data, v2)) => {
+                let served = payload_set(&data);
+                let new_of_ca: BTreeSet<Payload> = v2.truth.iter().filter(|t| t.ca == ca && t.obj.starts_with('x')).map(|t| t.payload.clone()).collect();
+                let all_new: BTreeSet<Payload> = v2.truth.iter().filter(|t| t.obj.starts_with('x')).map(|t| t.payload.clone()).collect();
+                let leaked: Vec<String> = served.intersection(&new_of_ca).map(data::fmt_payload).collect();
+                let alien: Vec<String> = served.iter().filter(|p| !base.contains(*p) && !all_new.contains(*p)).map(data::fmt_payload).collect();
+                *outcomes.entry(format!("abandoned-new-objects:{}", if leaked.is_empty() && alien.is_empty() { "none-served" } else { "VIOLATION" })).or_insert(0) += 1;
+                if !leaked.is_empty() {
+                    viol.push((format!("tree:served-from-abandoned-point:{}", place.fingerprint_kind()), format!(
+                        "after a fault-free run, the newer publication of {ca} carries {} and is abandoned, yet its new objects' payload {} is served",
+                        place.label(), leaked.join(", ")
+                    ), replay.clone()));
+                }
+                if !alien.is_empty() {
+                    viol.push(("tree:not-generated:abandoned-new-objects".into(), format!("second run with {}: served items that were never published: {}", place.label(), alien.join(", ")), replay));
+                }
+            }
+        }
+    }
+    { let mut orders = h.orders.lock().unwrap(); for u in &mft_uris { orders.remove(u); } }
+    // (b) a point stored under a lenient policy and judged again under
+    // `reject` without anything new to fetch (the stored path)
+    let mut stale_cases: Vec<Place> = Vec::new();
+    for tal in &spec.tals { tal.ca.visit(&mut |ca: &CaSpec| {
+        for f in [PointFault::CrlStale, PointFault::MftStale] { stale_cases.push(Place::Point(ca.name.clone(), f)); }
+    }); }
+    let res = util::par_map(stale_cases.len() as u64, threads, |i| {
+        let place = &stale_cases[i as usize];
+        let r = (|| -> Result<(Vec<(String, String)>, usize), String> {
+            let mut spec = rpkigen::base_tree();
+            apply(&mut spec, place);
+            let reject = Cfg::default();
+            let image = Builder::new(&gen, Stale::Reject).build(&spec);
+            let case = Case::new(ctx.scratch.join(format!("c01s-{i}")));
+            case.publish(&image);
+            case.write_tals(&image);
+            let mut config = case.config();
+            reject.apply(&mut config);
+            config.stale = FilterPolicy::Accept;
+            util::catch(|| etree::run(&config, false, &LocalExceptions::empty())).map_err(|e| format!("engine panicked in run 1: {e}"))??;
+            config.stale = FilterPolicy::Reject;
+            let out = util::catch(|| etree::run(&config, false, &LocalExceptions::empty())).map_err(|e| format!("engine panicked in run 2: {e}"))??;
+            let _ = std::fs::remove_dir_all(&case.dir);
+            let served = out.served.clone().map_err(|e| format!("the serving iterator yields a duplicate: {e}"))?;
+            let n = served.origins.len();
+            Ok((judge(&CaseResult { image, served }, &reject, None).0, n))
+        })();
+        (i as usize, r)
+    });
+    for (i, r) in res {
+        let place = &stale_cases[i];
+        evaluations += 1;
+        nontrivial += 1;
+        let replay = json!({"kind": "stored-then-reject", "fault": place.label()});
+        match r {
+            Err(e) => viol.push(("tree:run-failed:stored-then-reject".into(), format!("{}: {e}", place.label()), replay)),
+            Ok((c01, _)) => {
+                *outcomes.entry(format!("stored-then-reject:{}", if c01.is_empty() { "clean" } else { "VIOLATION" })).or_insert(0) += 1;
+                for (class, msg) in c01 {
+                    viol.push((format!("tree:{class}:stored-then-reject:{}", place.fingerprint_kind()), format!("stored under stale=accept, judged again under stale=reject, {}: {msg}", place.label()), replay.clone()));
+                }
+            }
+        }
+    }
+    (evaluations, nontrivial, viol, outcomes)
+}
+
 /// A tree in which each payload type also occurs alone in a CA.
 pub fn single_type_tree() -> TreeSpec {
     use std::net::Ipv4Addr;
@@ -557,6 +711,23 @@ fn report_for(ctx: &Ctx, which: usize) -> Report {
         with at least one MUST-NOT item".into();
     let list = if which == 1 { out.c01 } else { out.c02 };
     for (fp, msg, replay) in list { rep.violation(fp, msg, replay); }
+    if which == 1 && ctx.shard.is_none_or(|(i, _)| i == 0) {
+        let (e, n, viol, outcomes) = explore_c01_extra(ctx);
+        rep.evaluations += e;
+        rep.nontrivial += n;
+        for (k, v) in outcomes { *rep.outcomes.entry(k).or_insert(0) += v; }
+        for (fp, msg, replay) in viol { rep.violation(fp, msg, replay); }
+        rep.rule.push_str("; C01 additionally, as two-run histories on \
+            one cache: (a) after a fault-free run a newer publication in \
+            which every CA carries additional objects (ROA, ASPA, router \
+            certificate; processed first through the order hook) and one \
+            CA carries a placement that voids its fetched point - none of \
+            that CA's new objects may be served; (b) a point with a stale \
+            CRL or manifest stored under stale=accept and judged again \
+            under stale=reject with nothing new to fetch - nothing below it \
+            may be served");
+        rep.bound.push_str("; + every point-voiding placement and every stale placement as a second run");
+    }
     if which == 2 && ctx.shard.is_none_or(|(i, _)| i == 0) {
         let (e, n, viol, outcomes) = explore_c02_extra(ctx);
         rep.evaluations += e;
@@ -595,6 +766,12 @@ pub fn replay(ctx: &Ctx, v: &Value) -> Report {
         let cfg = Cfg::all().into_iter().find(|c| Some(c.label().as_str()) == v["cfg"].as_str()).unwrap_or(Cfg::default());
         rep.evaluations = 1; rep.nontrivial = 1;
         rep.sample(v.clone());
+        if kind == "abandoned-new-objects" || kind == "stored-then-reject" {
+            // these depend on process-wide order hooks: re-run the whole family
+            let (_, _, viol, _) = explore_c01_extra(ctx);
+            for (fp, msg, r) in viol { println!("{fp}: {msg}"); rep.violation(fp, msg, r); }
+            return rep
+        }
         if kind == "stored-fallback" {
             let Some(place) = places.iter().find(|p| Some(p.label().as_str()) == v["fault"].as_str()) else {
                 eprintln!("unknown fault"); std::process::exit(2)
